@@ -801,7 +801,26 @@ def run(prog, rep):
             rep.ob("C11.7", fin, "pad-alias", ok7 and pairs > 0, "%d pair(s) of padding stores with possibly equal indices: the later one ORs its bits in" % pairs if (ok7 and pairs) else
                    (msg7 or "no padding store pair found"), fin.loc[0])
     rep.floor("C11.4", 6)
-    rep.floor("C11.5", 14)
+    # fixed-size state, schedule and constant arrays: every subscript whose index is a constant, or a loop counter for which the path
+    # carries an upper bound, stays inside the array - with the loop's stride taken into account (`for (i = 0; i < 64; i += 8) ... W[i + 7]`).
+    # One step too far (`i <= 8` over `A[8]`) writes next to the array on the stack; the digest can still come out right.
+    from plint.wiring import array_bounds
+    nj = 0
+    for un in ALGO_UNITS:
+        au = prog.unit(un)
+        j_, bad_ = 0, []
+        for f_ in sorted(au.functions.values(), key=lambda f__: f__.loc[0]):
+            a_, b_ = array_bounds(f_)
+            j_ += a_
+            bad_ += [(f_,) + x for x in b_]
+        nj += j_
+        rep.ob("C11.5", bad_[0][0] if bad_ else sorted(au.functions.values(), key=lambda f__: f__.loc[0])[0], "bounds", not bad_,
+               "%d subscripts of fixed-size arrays with a known largest index stay inside their arrays" % j_ if not bad_ else
+               "line %d: %s has %d elements and is subscripted with an index that reaches %d in %s" % (line(bad_[0][1]), bad_[0][2], bad_[0][3], bad_[0][4], bad_[0][0].name),
+               bad_[0][1] if bad_ else sorted(au.functions.values(), key=lambda f__: f__.loc[0])[0].loc[0])
+    if nj < 3000:
+        raise AnalysisBroken("C11.5 bounds: only %d subscripts judged in the algorithm units (expected several thousand)" % nj)
+    rep.floor("C11.5", 14 + 6)
     rep.floor("C11.6", 6)
     rep.floor("C11.7", 1)
     check_adders(prog, rep)
@@ -1078,6 +1097,10 @@ def run(prog, rep):
 RENAME_LOCALS = ['src/pcryptohash.c', 'src/pcryptohash-sha3.c']   # md5/sha1 use unhygienic round macros that name the locals
 
 SELFTEST = [
+    dict(id="sha256-working-copy-one-too-far", file="src/pcryptohash-sha2-256.c", expect="C11.5",
+         old="\tfor (i = 0; i < 8; i++)\n\t\tA[i] = ctx->hash[i];", new="\tfor (i = 0; i <= 8; i++)\n\t\tA[i] = ctx->hash[i];"),
+    dict(id="sha3-theta-column-one-too-far", file="src/pcryptohash-sha3.c", expect="C11.5",
+         old="\tfor (i = 0; i < 5; ++i)\n\t\tC[i] = ctx->hash[i] ^", new="\tfor (i = 0; i <= 5; ++i)\n\t\tC[i] = ctx->hash[i] ^"),
     dict(id="gost-carry-equal-case-dropped", file="src/pcryptohash-gost3411.c", expect="C11.8",
          old="carry = (a[i] < old || (carry && a[i] == old)) ? TRUE : FALSE;", new="carry = (a[i] < old) ? TRUE : FALSE;"),
     dict(id="gost-carry-two-strict-compares", file="src/pcryptohash-gost3411.c", expect="C11.8",
